@@ -67,6 +67,25 @@ def r7(ctx):
         ctx.ok("config:ArgumentParser.parse_args:modes-order", "modes are not applied in set order")
         ctx.floor(1)
         return
+    # a loop over the set of modes that stops early applies whichever modes come first in hash order
+    set_names = {u(n.targets[0]) for n in pa.body_nodes() if isinstance(n, ast.Assign) and isinstance(n.value, ast.Call) and u(n.value.func) in ("set", "frozenset") and "modes" in u(n.targets[0])}
+    alias = set(set_names)
+    for n_ in pa.body_nodes():
+        if isinstance(n_, ast.Assign) and len(n_.targets) == 1 and isinstance(n_.targets[0], ast.Name) and u(n_.value) in alias:
+            alias.add(n_.targets[0].id)
+    for lp in [x for x in pa.body_nodes() if isinstance(x, ast.For) and u(x.iter) in alias]:
+        def exits(body, in_inner):
+            for st_ in body:
+                if isinstance(st_, (ast.FunctionDef, ast.AsyncFunctionDef, ast.ClassDef)):
+                    continue
+                if isinstance(st_, ast.Return) or (isinstance(st_, ast.Break) and not in_inner):
+                    yield st_
+                for fld in ("body", "orelse", "finalbody"):
+                    yield from exits(getattr(st_, fld, []) or [], in_inner or isinstance(st_, (ast.For, ast.While)))
+                for h in getattr(st_, "handlers", []) or []:
+                    yield from exits(h.body, in_inner)
+        early = list(exits(lp.body, False))
+        ctx.check(not early, f"config:ArgumentParser.parse_args:modes-loop:{u(lp.target)}:no-early-exit", f"the loop over the set `{u(lp.iter)}` leaves early (`{u(early[0]) if early else ''}`): the modes that follow in hash order are not applied, so the configuration depends on PYTHONHASHSEED", pa.loc(early[0] if early else lp))
     n = 0
     for fname, t in _compiler_defs(repo).items():
         for cname, c in t.get("compiler", {}).items():
